@@ -99,8 +99,6 @@ func c08PeriodInterp(t *testing.T, c c08PCase) (v kit.Verdict) {
 	classes := map[string]bool{}
 	nontrivial := false
 	res := kit.Bubble(t, func() {
-		c08EnterBubble()
-		defer c08LeaveBubble()
 		store := redis.New(srv.addr)
 		var opts []limit.PeriodOption
 		if c.Align {
@@ -296,6 +294,6 @@ func c08PeriodGen(rt *rapid.T) c08PCase {
 
 func TestVerif_C08_period(t *testing.T) {
 	c08GetServer()
-	kit.Run(t, "C08", "period", kit.Opts{Quick: 500, Thorough: 48000}, c08PeriodGen,
+	kit.Run(t, "C08", "period", kit.Opts{Quick: 400, Thorough: 48000}, c08PeriodGen,
 		func(c c08PCase) kit.Verdict { return c08PeriodInterp(t, c) })
 }
